@@ -531,10 +531,32 @@ func (u *Unit) enterLoop(fr *Frame, li *loopInfo, st *State, reach Term) (*State
 		st.cells[c] = nv
 		_ = old
 	}
+	allocOnly := false
+	if !all {
+		var hs []string
+		for _, h := range heaps {
+			if h == "@allocates" {
+				allocOnly = true
+			} else {
+				hs = append(hs, h)
+			}
+		}
+		heaps = hs
+	}
 	if all {
 		u.havocHeaps(st, nil, "loop")
-	} else if len(heaps) > 0 {
-		u.havocHeaps(st, heaps, "loop")
+	} else {
+		if len(heaps) > 0 {
+			u.havocHeaps(st, heaps, "loop")
+		}
+		if allocOnly {
+			// callees in the loop only allocate: every other heap keeps its content at the references
+			// that existed before the loop
+			u.havocAllocatesOnly(st, pre)
+			prevA := st.alloc
+			st.alloc = u.fresh("alloc", "Int")
+			u.assume(tTrue, app("Bool", ">=", st.alloc, prevA))
+		}
 	}
 	u.havocLoopCalls(fr, li, st, reach)
 	// 3. auto invariants for monotone counters
